@@ -56,7 +56,7 @@ class Reductions(Harness):
     def skeletons(self, tier, seed):
         n = 4 if tier == "quick" else 6
         out = []
-        for comp in ("mean", "bincount", "kmers", "groupby", "histogram_range", "histogram"):
+        for comp in ("mean", "mean_u8", "mean_i8", "bincount", "kmers", "groupby", "histogram_range", "histogram"):     # mean_*: data held in a narrow integer dtype
             for ch in chunkings(n):
                 out.append(dict(comp=comp, n=n, chunks=ch))
         return out
@@ -65,9 +65,10 @@ class Reductions(Harness):
 
     def inputs(self, skel, V):
         n = skel["n"]
-        if skel["comp"] == "mean":
+        if skel["comp"] in ("mean", "mean_u8", "mean_i8"):
+            lo, hi = {"mean": (-20, 20), "mean_u8": (0, 255), "mean_i8": (-128, 127)}[skel["comp"]]
             for i in range(n):
-                V.int(f"v{i}", -20, 20)
+                V.int(f"v{i}", lo, hi)
         elif skel["comp"] in ("bincount", "histogram_range", "histogram"):
             for i in range(n):
                 V.int(f"v{i}", 0, 3)
@@ -83,8 +84,9 @@ class Reductions(Harness):
         from bionumpy import streams
         from bionumpy.streams import BnpStream, NpDataclassStream
         n, comp, chunks = skel["n"], skel["comp"], skel["chunks"]
-        if comp in ("mean", "bincount", "histogram_range", "histogram"):
-            mk = lambda a, b: ctx.arr([x[f"v{i}"] for i in range(a, b)], "int64")
+        if comp in ("mean", "mean_u8", "mean_i8", "bincount", "histogram_range", "histogram"):
+            dt_ = {"mean_u8": "uint8", "mean_i8": "int8"}.get(comp, "int64")
+            mk = lambda a, b: ctx.arr([x[f"v{i}"] for i in range(a, b)], dt_)
             whole = mk(0, n)
             stream = BnpStream(mk(a, b) for a, b in chunks)
             if comp.startswith("histogram"):
@@ -92,7 +94,7 @@ class Reductions(Harness):
                 hs, es = streams.histogram(stream, **kw)
                 hw, ew = ctx.np.histogram(whole, **kw)
                 return dict(stream=[ctx.lst(hs), ctx.lst(es)], whole=[ctx.lst(hw), ctx.lst(ew)])
-            if comp == "mean":
+            if comp.startswith("mean"):
                 return dict(stream=ctx.lst(streams.mean(stream)), whole=ctx.lst(streams.mean(whole)))
             from bionumpy.streams.reductions import bincount
             return dict(stream=ctx.lst(bincount(stream)), whole=ctx.lst(ctx.np.bincount(whole)))
@@ -128,6 +130,14 @@ class Reductions(Harness):
         for it in items:
             if not _eq_struct(it["stream"], it["whole"], conj):
                 return False
+        if skel["comp"].startswith("mean"):
+            # ... and both are the arithmetic mean of the VALUES (whatever integer dtype holds them)
+            from symnp.core import T
+            tot = z3.ToReal(sum([x[f"v{i}"].t for i in range(skel["n"])], z3.IntVal(0)))
+            for key in ("stream", "whole"):
+                v_ = out[key][0] if isinstance(out[key], list) else out[key]
+                t_ = T(v_)
+                conj.append((t_ if z3.is_real(t_) else z3.ToReal(t_)) * skel["n"] == tot)
         return z_and(conj)
 
     def oracle(self, skel, cx, cout):
@@ -143,6 +153,11 @@ class Reductions(Harness):
         for it in items:
             if not same(it["stream"], it["whole"]):
                 return f"{skel['comp']} of data {vals} cut into chunks {skel['chunks']}: streamed {it['stream']}, in memory {it['whole']}"
+        if skel["comp"].startswith("mean"):
+            flat = lambda v: float(v[0] if isinstance(v, list) else v)
+            want = sum(vals) / len(vals)
+            if abs(flat(cout["stream"]) - want) > 1e-9 or abs(flat(cout["whole"]) - want) > 1e-9:
+                return f"{skel['comp']} of data {vals} cut into chunks {skel['chunks']}: streamed {cout['stream']}, in memory {cout['whole']}, the mean is {want}"
         return None
 
 
